@@ -126,7 +126,7 @@ type Term struct {
 	P1, P2 int
 	Name   string
 	ID     int
-	hasSym bool
+	KZ, KO uint64 // known-zero / known-one bit masks (bit-vectors only)
 }
 
 func (t *Term) IsConst() bool { return t.Op == OConst }
@@ -145,7 +145,83 @@ func NewCtx() *Ctx {
 	return c
 }
 
+// knownBits computes the known-zero/known-one masks of a bit-vector term.
+func knownBits(t *Term) (kz, ko uint64) {
+	w := t.S.W
+	m := mask(w)
+	a := func(i int) *Term { return t.Args[i] }
+	switch t.Op {
+	case OConst:
+		return ^t.C & m, t.C & m
+	case OBvAnd:
+		return (a(0).KZ | a(1).KZ) & m, a(0).KO & a(1).KO
+	case OBvOr:
+		return a(0).KZ & a(1).KZ, (a(0).KO | a(1).KO) & m
+	case OBvXor:
+		k := (a(0).KZ | a(0).KO) & (a(1).KZ | a(1).KO)
+		v := (a(0).KO ^ a(1).KO) & k
+		return k &^ v, v
+	case OBvNot:
+		return a(0).KO, a(0).KZ
+	case OConcat:
+		lw := uint(a(1).S.W)
+		return (a(0).KZ<<lw | a(1).KZ) & m, (a(0).KO<<lw | a(1).KO) & m
+	case OExtract:
+		return (a(0).KZ >> uint(t.P2)) & m, (a(0).KO >> uint(t.P2)) & m
+	case OIte:
+		return a(1).KZ & a(2).KZ, a(1).KO & a(2).KO
+	case OSext:
+		iw := a(0).S.W
+		kz, ko = a(0).KZ, a(0).KO
+		hi := m &^ mask(iw)
+		if kz>>(uint(iw)-1)&1 == 1 {
+			kz |= hi
+		} else if ko>>(uint(iw)-1)&1 == 1 {
+			ko |= hi
+		}
+		return kz, ko
+	case OBvAdd, OBvSub:
+		// trailing bits that are known zero in both operands stay zero
+		tz := bits.TrailingZeros64(^(a(0).KZ & a(1).KZ))
+		if tz > w {
+			tz = w
+		}
+		return mask(tz), 0
+	case OBvMul:
+		tz := bits.TrailingZeros64(^a(0).KZ) + bits.TrailingZeros64(^a(1).KZ)
+		if tz > w {
+			tz = w
+		}
+		return mask(tz), 0
+	case OBvShl:
+		tz := bits.TrailingZeros64(^a(0).KZ)
+		if tz > w {
+			tz = w
+		}
+		return mask(tz), 0
+	case OBvLshr, OBvUDiv, OBvURem:
+		if t.Op == OBvUDiv && a(1).KO == 0 {
+			return 0, 0 // x/0 is all ones in SMT-LIB
+		}
+		// leading known zeros of the dividend / shifted value are preserved
+		lz := bits.LeadingZeros64(^(a(0).KZ | ^m)) - (64 - w)
+		if lz <= 0 {
+			return 0, 0
+		}
+		return m &^ mask(w-lz), 0
+	}
+	return 0, 0
+}
+
 func (c *Ctx) mk(t *Term) *Term {
+	if t.S.K == KBV && t.S.W > 0 && t.Op != OConst {
+		t.KZ, t.KO = knownBits(t)
+		if (t.KZ|t.KO)&mask(t.S.W) == mask(t.S.W) {
+			return c.BVC(t.KO, t.S.W)
+		}
+	} else if t.Op == OConst && t.S.K == KBV {
+		t.KZ, t.KO = ^t.C&mask(t.S.W), t.C&mask(t.S.W)
+	}
 	var sb strings.Builder
 	fmt.Fprintf(&sb, "%d|%d|%d|%x|%d|%d|%s", t.Op, t.S.K, t.S.W, t.C, t.P1, t.P2, t.Name)
 	for _, a := range t.Args {
@@ -259,6 +335,9 @@ func (c *Ctx) Eq(a, b *Term) *Term {
 	}
 	if a.IsConst() && b.IsConst() && a.S.K != KFP32 && a.S.K != KFP64 {
 		return c.BoolC(a.C == b.C)
+	}
+	if a.S.K == KBV && (a.KO&b.KZ|a.KZ&b.KO) != 0 {
+		return c.False
 	}
 	if a.S.K == KBool {
 		if a.IsConst() {
@@ -392,6 +471,12 @@ func (c *Ctx) bvbin(op Op, a, b *Term) *Term {
 	case OBvAnd:
 		if a == b {
 			return a
+		}
+		if b.IsConst() && (b.C&^a.KZ)&mask(w) == 0 { // mask selects only known-zero bits
+			return c.BVC(0, w)
+		}
+		if a.IsConst() && (a.C&^b.KZ)&mask(w) == 0 {
+			return c.BVC(0, w)
 		}
 		if a.IsConst() {
 			a, b = b, a
@@ -545,6 +630,25 @@ func (c *Ctx) bvcmp(op Op, a, b *Term) *Term {
 	}
 	if a == b {
 		return c.BoolC(op == OBvUle || op == OBvSle)
+	}
+	if op == OBvUlt || op == OBvUle {
+		amin, amax := a.KO, mask(w)&^a.KZ
+		bmin, bmax := b.KO, mask(w)&^b.KZ
+		if op == OBvUlt {
+			if amax < bmin {
+				return c.True
+			}
+			if amin >= bmax {
+				return c.False
+			}
+		} else {
+			if amax <= bmin {
+				return c.True
+			}
+			if amin > bmax {
+				return c.False
+			}
+		}
 	}
 	if op == OBvUlt && b.IsConst() && b.C == 0 {
 		return c.False
